@@ -12,7 +12,9 @@ BOGUS = ["Comic Sans", "", "arial", "Times"]
 
 def fpx(path, size, text):
     """the stub's 'glyph metric': a value that identifies the (font file, size, text) a measurement was made with"""
-    return float(size) * 16 + (sum(ord(c) for c in str(path)[-12:]) % 13) + len(text) / 4.0
+    if text == "":
+        return 0.0          # like FreeType: nothing to measure
+    return float(size) * 16 + (sum(ord(c) for c in str(path)[-12:]) % 13) + sum((i + 1) * ord(c) for i, c in enumerate(text)) / 64.0
 
 from vf.hlib import ModuleState
 _STATE = ModuleState(sw)
@@ -54,33 +56,35 @@ def build(tier, seed):
                   stubs=["Pillow ImageFont.truetype(...).getlength -> an arbitrary non-negative double px"],
                   bounds="measured length px in [0, 1e6] and dpi in [36, 600] as IEEE-754 doubles (QF_FP, bit exact)",
                   what="the result in 'px' is the measured length, 'in' is px/dpi, 'mm' is exactly ('in' result)*25.4, all non-negative"))
-    obs.append(Ob(
-        oid="O2.font_by_number_and_name", sig="num: int, u: int, z: int", pre=["-3 <= num <= 14", "0 <= u <= 5", "0 <= z <= 5"], header=HDR20, timeout=T,
-        body=r'''
+    for emptyv in (False, True):
+      obs.append(Ob(
+        oid="O2.font_by_number_and_name" + (".empty_text" if emptyv else ""), sig="num: int, u: int, z: int", pre=["-3 <= num <= 14", "0 <= u <= 5", "0 <= z <= 5"], header=HDR20, timeout=T,
+        body=("\n    empty = %r" % emptyv) + r'''
     unit = pick(UNITS, u)
     n = concrete_int(num, -3, 14)
     size = pick([0.5, 4, 9, 9.5, 12, 48], z)
+    text = "" if empty else "abc"
     fresh_module()
-    st_n, val_n = measure(n, size, unit)
+    st_n, val_n = measure(n, size, unit, text)
     if not (1 <= n <= 10 and u <= 2):
         return st_n == "ValueError"
     name = NAMES[n - 1]
-    st_s, val_s = measure(name, size, unit)
-    return st_n == "ok" and st_s == "ok" and val_n == val_s and val_n == expected(name, size, unit)
+    st_s, val_s = measure(name, size, unit, text)
+    return st_n == "ok" and st_s == "ok" and val_n == val_s and val_n == expected(name, size, unit, text) and (val_n == 0) == empty
 ''',
         funcs=["rtflite.strwidth:get_string_width", "rtflite.fonts_mapping:FontMapping.get_font_paths",
                "rtflite.fonts_mapping:FontMapping.get_font_number_to_name_mapping"],
         stubs=["Pillow -> fonts whose measured length identifies the (font file, size, text) used"],
-        bounds="font number -3..14 and the name mapped to it, unit in {in,mm,px,cm,'',IN}, size in {0.5, 4, 9, 9.5, 12, 48}",
+        bounds="font number -3..14 and the name mapped to it, unit in {in,mm,px,cm,'',IN}, size in {0.5, 4, 9, 9.5, 12, 48}, text 'abc' or empty",
         what="a font given by number or by its name measures the text with the font file mapped to it at exactly the requested size and "
-             "returns the same value; an unsupported font number or unit raises ValueError"))
+             "returns the same value (0 for the empty text); an unsupported font number or unit raises ValueError, also for the empty text"))
     obs.append(Ob(
-        oid="O2.unknown_name", sig="b: int, u: int", pre=["0 <= b <= 3", "0 <= u <= 2"], header=HDR20, timeout=T,
+        oid="O2.unknown_name", sig="b: int, u: int, empty: bool", pre=["0 <= b <= 3", "0 <= u <= 2"], header=HDR20, timeout=T,
         body=r'''
-    st, val = measure(pick(BOGUS, b), 9, pick(UNITS, u))
+    st, val = measure(pick(BOGUS, b), 9, pick(UNITS, u), "" if empty else "abc")
     return st == "ValueError"
 ''',
-        funcs=["rtflite.strwidth:get_string_width"], bounds="4 unsupported font names x the three legal units",
+        funcs=["rtflite.strwidth:get_string_width"], bounds="4 unsupported font names x the three legal units x text 'abc' or empty",
         what="an unsupported font name raises ValueError"))
     obs.append(Ob(
         oid="O3.history_independent", sig="f1: int, f2: int, z1: int, z2: int, same_text: bool",
@@ -100,11 +104,39 @@ def build(tier, seed):
         bounds="one earlier measurement (font 1, 4 or 9 - three different font files; size in {9, 9.5, 10, 10.5}) followed by the measurement "
                "under test (any of those fonts and sizes, same or other text)",
         what="a measurement uses the font file and the exact size it was asked for, whatever was measured before (no lossy memoisation)"))
+    # O4: what is measured is the text that was given
+    obs.append(Ob(
+        oid="O4.text_passthrough", sig="k: int, c: str, f: int", pre=["0 <= k <= 7", "len(c) <= 1", "0 <= f <= 2"], header=HDR20, timeout=T,
+        body=r"""
+    BS = chr(92)
+    base = pick(["", "x", BS + "pm", BS + "alpha", "a" + BS + "pi b", BS + "mathbb{R}", "a^b_c", ">= <="], k)
+    text = base + c
+    seen = []
+    class FakeFont:
+        def getlength(self, t):
+            seen.append(t)
+            return 7.0
+    saved = sw.ImageFont
+    sw.ImageFont = NS(truetype=lambda path, size=None: FakeFont())
+    try:
+        fresh_module()
+        val = sw.get_string_width(text, font=pick([1, 4, 9], f), font_size=9, unit="px")
+    finally:
+        sw.ImageFont = saved
+    if text == "":
+        return val == 0 or (val == 7.0 and seen == [""])
+    return seen == [text] and val == 7.0
+""",
+        funcs=["rtflite.strwidth:get_string_width"],
+        stubs=["Pillow -> font recording the string it is asked to measure"],
+        bounds="texts = one of 8 stems (empty, plain, LaTeX-like commands, braces, ^ _ >= <=) followed by at most one SYMBOLIC character",
+        what="the string handed to the font for measuring is exactly the caller's text - measured once, never converted, trimmed or "
+             "normalised - so monotonicity, scaling and the monospace rule are the font's, not the wrapper's"))
     meta = {
         "explanation": "Only the wrapper around Pillow is Python: with the measured pixel length an arbitrary non-negative double, the "
                        "three unit results are decided bit-exactly (congruence on the shared px/dpi term, no division solved), and "
                        "the font-number / font-name / unit dispatch is executed symbolically with a recording stub.",
-        "outside": ["width of the empty string, monotonicity under appending, scaling with font size and the monospace advance: "
+        "outside": ["monotonicity under appending, scaling with font size and the monospace advance: "
                     "facts about FreeType glyph tables (C code), not decidable by this technique"],
         "assumptions": ["Pillow's getlength returns a non-negative finite double"],
     }
